@@ -62,6 +62,7 @@ def cbmc(files, function, unwind, defines=(), backend=('--external-sat-solver', 
     for m in re.finditer(r'^\s+(\w+)=(-?\d+)\w* \(', out, re.M):
         res['trace_inputs'].setdefault(m.group(1), m.group(2))
     res['raw_tail'] = out[-1500:] if res['verdict'] == 'failed' else ''
+    res['raw_full'] = out if (res['verdict'] == 'failed' and trace) else ''
     m = re.search(r'(\d+) variables, (\d+) clauses', out)
     if m:
         res['sat_vars'], res['sat_clauses'] = int(m.group(1)), int(m.group(2))
